@@ -287,6 +287,10 @@ func (c *Ctx) ruleReflect(rule string, fns map[*ssa.Function]bool) {
 				if m == "" {
 					continue
 				}
+				if m == "MapIndex" && len(call.Call.Args) == 2 {
+					cnt["mapindex"]++
+					c.reflectMapIndex(rule, fn, call, cnt["mapindex"])
+				}
 				if !zeroPanics[m] {
 					continue
 				}
@@ -337,4 +341,107 @@ func (c *Ctx) reflectException(fn *ssa.Function, x ssa.Value) (string, bool) {
 		return "E-STRUCTMAPPED: the zero value of a struct-mapped object, set by NewStructMappedObjectSchema from its type argument (a struct or pointer to struct, checked by validateObjectIsStruct); the method is only reached when fieldCache != nil", true
 	}
 	return "", false
+}
+
+// ---- (c) reflect.Value.MapIndex -------------------------------------------------------------------------------------
+//
+// (c1) MapIndex returns the zero Value when the key is absent - and a NaN key is never found, even when it was just
+//      obtained from MapKeys of the same map - so every zero-Value-panicking method on the result needs, on every
+//      path, IsValid() of that result, or the fact that the key's Interface() was successfully asserted to a
+//      non-floating type (then it is not NaN, and being a MapKeys element it is present).
+// (c2) MapIndex panics when the key is not assignable to the map's key type: the key must be an element of
+//      MapKeys() of the same map, a MapIter key, or X.Convert(M.Type().Key()) dominated by X.CanConvert of that type.
+
+func (c *Ctx) isMapKeysElem(k ssa.Value, mapPath string) bool {
+	if u, ok := k.(*ssa.UnOp); ok && u.Op == token.MUL {
+		if ia, ok := u.X.(*ssa.IndexAddr); ok {
+			if src, ok := ia.X.(*ssa.Call); ok && core.StaticCalleeName(&src.Call) == "(reflect.Value).MapKeys" {
+				return c.reflPath(src.Call.Args[0], 0) == mapPath
+			}
+		}
+	}
+	if kc, ok := k.(*ssa.Call); ok && core.StaticCalleeName(&kc.Call) == "(*reflect.MapIter).Key" {
+		return true
+	}
+	return false
+}
+
+func (c *Ctx) reflectMapIndex(rule string, fn *ssa.Function, call *ssa.Call, n int) {
+	m, k := call.Call.Args[0], call.Call.Args[1]
+	mapPath := c.reflPath(m, 0)
+	pos := c.M.InstrPos(call)
+	// (c2)
+	k2 := key(rule, c.M.Key(fn), sprintf("MapIndex #%d on %s: key assignable to the map's key type", n, c.stable(fn, mapPath)))
+	switch {
+	case c.isMapKeysElem(k, mapPath):
+		c.R.Ok(rule, k2, pos, "reflect.Value.MapIndex key", "the key is an element of MapKeys() of the same map (or a MapIter key)")
+	default:
+		okConv := false
+		if conv, ok := k.(*ssa.Call); ok && core.StaticCalleeName(&conv.Call) == "(reflect.Value).Convert" && len(conv.Call.Args) == 2 {
+			// the target type is M.Type().Key()
+			if kt, ok := conv.Call.Args[1].(*ssa.Call); ok && kt.Call.IsInvoke() && kt.Call.Method.Name() == "Key" {
+				if tc, ok := kt.Call.Value.(*ssa.Call); ok && core.StaticCalleeName(&tc.Call) == "(reflect.Value).Type" && c.reflPath(tc.Call.Args[0], 0) == mapPath {
+					x := conv.Call.Args[0]
+					hold := core.MustHold(fn, func(cond core.Cond) bool {
+						cc, ok := cond.V.(*ssa.Call)
+						return ok && cond.True && core.StaticCalleeName(&cc.Call) == "(reflect.Value).CanConvert" && len(cc.Call.Args) == 2 &&
+							c.reflPath(cc.Call.Args[0], 0) == c.reflPath(x, 0) && cc.Call.Args[1] == conv.Call.Args[1]
+					})
+					okConv = hold[conv.Block()]
+				}
+			}
+		}
+		if okConv {
+			c.R.Ok(rule, k2, pos, "reflect.Value.MapIndex key", "the key is converted to the map's own key type under a CanConvert fact")
+		} else {
+			c.R.Bad(rule, k2, pos, "reflect.Value.MapIndex with a key that may not be assignable to the map's key type",
+				"the key is neither a key of this map nor converted to M.Type().Key() under CanConvert; for a typed map with another key type (e.g. map[int]any) MapIndex panics instead of the value being rejected")
+		}
+	}
+	// (c1)
+	est := func(cond core.Cond) bool {
+		switch x := cond.V.(type) {
+		case *ssa.Call:
+			return cond.True && reflectValueMethod(x) == "IsValid" && x.Call.Args[0] == ssa.Value(call)
+		case *ssa.Extract:
+			ta, ok := x.Tuple.(*ssa.TypeAssert)
+			if !ok || x.Index != 1 || !cond.True || !c.isMapKeysElem(k, mapPath) {
+				return false
+			}
+			ic, ok := ta.X.(*ssa.Call)
+			if !ok || core.StaticCalleeName(&ic.Call) != "(reflect.Value).Interface" || ic.Call.Args[0] != k {
+				return false
+			}
+			if b, ok := ta.AssertedType.Underlying().(*types.Basic); ok && b.Info()&(types.IsFloat|types.IsComplex) == 0 {
+				return true
+			}
+		}
+		return false
+	}
+	hold := core.MustHold(fn, est)
+	uses := 0
+	for _, r := range *call.Referrers() {
+		uc, ok := r.(*ssa.Call)
+		if !ok {
+			continue
+		}
+		um := reflectValueMethod(uc)
+		if um == "" || !zeroPanics[um] || uc.Call.Args[0] != ssa.Value(call) {
+			continue
+		}
+		uses++
+		k1 := key(rule, c.M.Key(fn), sprintf("MapIndex #%d on %s: result valid before .%s #%d", n, c.stable(fn, mapPath), um, uses))
+		if hold[uc.Block()] {
+			c.R.Ok(rule, k1, c.M.InstrPos(uc), "use of a reflect.Value.MapIndex result", "on every path IsValid() of the result holds, or the key was asserted to a non-floating type (not NaN) and is a key of this map")
+		} else if isRecoverScope(fn) {
+			c.R.Ok(rule, k1, c.M.InstrPos(uc), "use of a reflect.Value.MapIndex result", "the function recovers")
+		} else {
+			c.R.Bad(rule, k1, c.M.InstrPos(uc), "reflect.Value."+um+" on a MapIndex result that may be the zero Value",
+				"MapIndex returns the zero Value for an absent key, and a NaN key obtained from MapKeys is never found again; "+um+" then panics ('call of reflect.Value."+um+" on zero Value') instead of the value being rejected")
+		}
+	}
+	// results stored and used through locals are not followed
+	if uses == 0 {
+		c.R.Info(rule, key(rule, c.M.Key(fn), sprintf("MapIndex #%d on %s: uses", n, c.stable(fn, mapPath))), pos, "MapIndex result not used directly by a reflect method", "not decided")
+	}
 }
